@@ -235,6 +235,37 @@ def spec_pair_histories(tier, seed, spec):
     return out
 
 
+def atom_pair_histories(tier):
+    """For every atom, every ordered pair of syntactic positions, under every renderer (thorough: every option set)."""
+    out = []
+    positions = sorted(D.ATOM_POSITIONS)
+    n = len(positions)
+    for rid in W.RENDERER_IDS:
+        for oi, opts in enumerate(W.OPTIONS[rid]):
+            if tier != 'thorough' and oi > 0:
+                continue
+            for ai in range(len(D.ATOMS)):
+                docs_all = [D.ATOM_PROBES['atom%d_%s' % (ai, p)] for p in positions]
+                for stride in range(1, n + 1):
+                    seen = set()
+                    for start in range(n):
+                        if start in seen:
+                            continue
+                        seq, j = [], start
+                        while j not in seen:
+                            seen.add(j)
+                            seq.append(j)
+                            j = (j + stride) % n
+                        seq.append(j)
+                        docs = [docs_all[x] for x in seq]
+                        if stride % 2:
+                            out.append(('atom_pairs', [{'k': 'CTX', 'R': rid, 'opts': opts, 'exit': 'normal',
+                                                        'steps': [{'k': 'RENDER', 'doc': d} for d in docs]}]))
+                        else:
+                            out.append(('atom_pairs', [{'k': 'MD', 'R': rid, 'opts': opts, 'doc': d} for d in docs]))
+    return out
+
+
 def cross_histories(tier):
     """Every ordered pair of renderer configurations (quick: default options; thorough: every option set), plus a bare
     Document as second party: the first renders every sentinel, then the second does. This is the quantifier's
@@ -322,6 +353,8 @@ def _pick_doc(rng, thorough, extra_docs):
     names = _PROBE_NAMES
     if extra_docs and x < 0.25:
         return extra_docs[rng.randrange(len(extra_docs))]
+    if x < 0.33:
+        return D.ATOM_PROBES[_ATOM_NAMES[rng.randrange(len(_ATOM_NAMES))]]
     if x < 0.8 or not thorough:
         return D.PROBES[names[rng.randrange(len(names))]]
     # assembled document: a few probes glued, optionally wrapped
@@ -337,6 +370,7 @@ def _pick_doc(rng, thorough, extra_docs):
 
 
 _PROBE_NAMES = sorted(D.PROBES)
+_ATOM_NAMES = sorted(D.ATOM_PROBES)
 _SENTINEL_FOR = {   # which probe shows the state a fault kind can strand
     'F1': ['setext2', 'setext1', 'plain', 'ref_shortcut'],
     'F2': ['plain', 'plain_em', 'code', 'setext2', 'entity_def'],
